@@ -13,6 +13,7 @@ Section PDB.
   Variable V : Type.
   Variable split : string -> list string.
   Variable isblank : string -> bool.
+  Variable strip : string -> string.                  (* str.strip() *)
   Variable float_of : string -> res V.
 
   (* what the lattice of the structure was last set from *)
@@ -73,8 +74,7 @@ Section PDB.
     if isblank line0 then Ok st
     else
       let line := pad80 line0 in
-      let words := split line in
-      record <- idx words 0 ;;
+      let record := strip (col 0 6 line) in             (* record = line[:6].strip() *)
       if kw record "TITLE" then Ok st
       else if kw record "CRYST1" then
         a <- float_of (col 7 15 line) ;; b <- float_of (col 15 24 line) ;; c <- float_of (col 24 33 line) ;;
